@@ -59,7 +59,7 @@ var catViewSuffix = [3]string{"", "@alt", "@bare"}
 
 func isCatStruct(kind string) bool {
 	switch baseKind(kind) {
-	case kTop, kDefStruct, kValStruct, kDefOuter:
+	case kTop, kDefStruct, kValStruct, kDefOuter, kCfgUnp, kAnyUnp:
 		return true
 	}
 	return false
